@@ -13,7 +13,10 @@ observed token balances, the current delegate of every account from the accepted
 operations, and a table "ledger ↦ votes of every account and total supply at the end of
 that ledger" filled in whenever the ledger moves. On every implementation observation:
   get_votes(a) = Σ balances of the accounts whose ghost delegate is a; total = Σ balances;
-  units = balance (when exposed); get_delegate = ghost delegate; every past query equals the
+  units = balance (when exposed); get_delegate = ghost delegate (also for accounts whose units
+  dropped to zero and were funded again); moving the ledger — by one step or by 100 days
+  without any access to the contract — changes no current value and makes no getter fail
+  (`votes.idle.changed`: an entry that must persist has vanished); every past query equals the
   ghost table (hence never changes later; 0 before the start); the current / future ledgers
   are refused; a failed call changes nothing; at most one new checkpoint per account and
   ledger (when the counter is exposed).
@@ -44,7 +47,8 @@ def initM (label : String) : M :=
     | some "fvb" => Kind.fvb
     | some "nft" => Kind.nft
     | _ => Kind.ex
-  { kind, cfg := ⟨mt, MAX_TTL⟩, fv := OZ.FungibleVotes.init st, nf := OZ.NonFungibleVotes.init st }
+  let mx := (kvNat? ws "max_ttl").getD MAX_TTL
+  { kind, cfg := ⟨mt, mx⟩, fv := OZ.FungibleVotes.init st, nf := OZ.NonFungibleVotes.init st }
 
 structure Parsed where
   op : String
@@ -161,6 +165,7 @@ structure Obs where
   ts : Int
   fut : String
   hist : List (Nat × List String)
+  failed : Bool          -- some current getter failed (printed `E` by the harness)
 
 def optList (s : String) : Option (List Nat) := if s = "-" then none else some (natList s)
 
@@ -173,15 +178,17 @@ def parseObs (line : String) : Option Obs :=
     let del := ((kv? rest "del").getD "").splitOn "," |>.map String.toNat?
     let votes := intList ((kv? rest "votes").getD "-")
     let ncp := optList ((kv? rest "ncp").getD "-")
-    let ts ← kvInt? rest "ts"
+    let ts := (kvInt? rest "ts").getD 0
     let fut := (kv? rest "fut").getD "?"
     let hS := (kv? rest "hist").getD "-"
     let hist := if hS = "-" then [] else (hS.splitOn ";").filterMap (fun t =>
       match t.splitOn ":" with
       | [l, row] => do pure ((← l.toNat?), row.splitOn "/")
       | _ => none)
-    if bal.length ≠ N ∨ votes.length ≠ N ∨ del.length ≠ N then none
-    else pure { ok := tag = "ok", now, bal, units, del, votes, ncp, ts, fut, hist }
+    let failed := ["bal", "units", "del", "votes", "ncp", "ts", "tsup"].any (fun k =>
+      (((kv? rest k).getD "").splitOn ",").contains "E")
+    if ¬ failed ∧ (bal.length ≠ N ∨ votes.length ≠ N ∨ del.length ≠ N) then none
+    else pure { ok := tag = "ok", now, bal, units, del, votes, ncp, ts, fut, hist, failed }
   | _ => none
 
 structure Mon where
@@ -193,7 +200,7 @@ structure Mon where
 
 def zeroObs (start : Nat) : Obs :=
   { ok := true, now := start, bal := List.replicate N 0, units := none, del := List.replicate N none,
-    votes := List.replicate N 0, ncp := none, ts := 0, fut := "rej", hist := [] }
+    votes := List.replicate N 0, ncp := none, ts := 0, fut := "rej", hist := [], failed := false }
 
 def minitM (label : String) : Mon :=
   let st := (kvNat? (words label) "start").getD 100
@@ -216,6 +223,12 @@ def check (m : Mon) (opl obs : String) : Mon × Option String :=
   | none, _ => (m, some s!"site=votes.parse unparsable observation {obs}")
   | _, none => (m, some s!"site=votes.parse unparsable op {opl}")
   | some o, some p =>
+    if o.failed then
+      -- a getter of the current state panicked: an entry the library relies on is gone
+      (m, some (if p.op = "advance"
+        then s!"site=votes.idle.changed after moving the ledger by {p.n} a getter fails: {obs.take 300}"
+        else s!"site=votes.getter_failed a getter fails after {p.op}: {obs.take 300}"))
+    else
     let prev := m.prev
     -- ghost updates from the ACCEPTED operation only
     let del' := match p.op, p.a with
@@ -249,7 +262,10 @@ def check (m : Mon) (opl obs : String) : Mon × Option String :=
         | some r => r ≠ row
         | none => false)
     let fail : Option String :=
-      if o.fut ≠ "rej" then some s!"site=votes.future a query for the current or a future ledger was answered: {o.fut}"
+      if p.op = "advance" ∧ (o.now ≠ prev.now + p.n ∨ o.votes ≠ prev.votes ∨ o.ts ≠ prev.ts ∨ o.bal ≠ prev.bal ∨
+          o.del ≠ prev.del ∨ (prev.units.isSome ∧ o.units ≠ prev.units) ∨ (prev.ncp.isSome ∧ o.ncp ≠ prev.ncp)) then
+        some s!"site=votes.idle.changed moving the ledger by {p.n} (no call in between) changed a current value: votes {prev.votes}->{o.votes} total {prev.ts}->{o.ts} delegates {prev.del.map showOpt}->{o.del.map showOpt} units {prev.units}->{o.units} checkpoints {prev.ncp}->{o.ncp}"
+      else if o.fut ≠ "rej" then some s!"site=votes.future a query for the current or a future ledger was answered: {o.fut}"
       else if let some a := badVotes then
         some s!"site=votes.delegated_sum get_votes({a})={o.votes.getD a 0} but the balances delegated to {a} sum to {delegatedSum del' o.bal a}"
       else if o.ts ≠ o.bal.sum then some s!"site=votes.total get_total_supply={o.ts} but balances sum to {o.bal.sum}"
@@ -260,8 +276,6 @@ def check (m : Mon) (opl obs : String) : Mon × Option String :=
         some s!"site=votes.history query at ledger {q} (now={o.now}) returned {row} but the values at the end of that ledger were {(expected m table' q).getD []}"
       else if ¬ o.ok ∧ (o.bal ≠ prev.bal ∨ o.votes ≠ prev.votes ∨ o.del ≠ prev.del ∨ o.ts ≠ prev.ts ∨ (prev.ncp.isSome ∧ o.ncp ≠ prev.ncp) ∨ o.now ≠ prev.now) then
         some "site=votes.rollback a failed call changed balances, votes, delegates or checkpoints"
-      else if p.op = "advance" ∧ (o.now ≠ prev.now + p.n ∨ o.votes ≠ prev.votes ∨ o.ts ≠ prev.ts) then
-        some "site=votes.advance moving the ledger changed current votes"
       else if (o.bal.any (· < 0)) then some "site=votes.negative a balance is negative"
       else cpFail
     (m', fail)
